@@ -121,3 +121,7 @@ impl Display for Formatted<'_, Hsla> {
         }
     }
 }
+
+#[cfg(kani)]
+#[path = "/verif/kani/hsla.rs"]
+pub(super) mod kani_verif;
